@@ -40,7 +40,7 @@ def run_equiv(prop, tier, names, only=None, family=None, workers=8):
         t0 = time.time()
         try:
             r = subprocess.run(["python3-vt", "-m", "irsym.equiv_targets", n, tier, str(i), work], cwd=VERIF, stdout=subprocess.PIPE,
-                               stderr=subprocess.PIPE, timeout=900 if tier == "quick" else 2600)
+                               stderr=subprocess.PIPE, timeout=900 if tier == "quick" else 3600)
             d = json.loads(r.stdout.decode().strip().split("\n")[-1])
         except Exception as e:
             d = {"target": n, "params": ps, "status": "inconclusive", "detail": "runner: %r" % (e,)}
